@@ -11,6 +11,7 @@ import (
 	"github.com/hashicorp/raft"
 	"github.com/rqlite/rqlite/v10/command"
 	"github.com/rqlite/rqlite/v10/command/proto"
+	sql "github.com/rqlite/rqlite/v10/db"
 	"github.com/rqlite/rqlite/v10/internal/rsync"
 	"github.com/rqlite/rqlite/v10/store/throttler"
 )
@@ -248,6 +249,22 @@ func verifCommandMarshal(c *proto.Command) ([]byte, error) {
 	return []byte{byte(c.Type)}, nil
 }
 
+// model of (*CommandProcessor).Process for the symbolic run (command.Unmarshal is protobuf): the
+// harnesses only ever put NOOP commands into the log, which Process answers like this without
+// touching the database. Natively the real Process decodes the real NOOP bytes.
+func verifProcess(c *CommandProcessor, data []byte, db *sql.SwappableDB) (*proto.Command, bool, any) {
+	return &proto.Command{Type: proto.Command_COMMAND_TYPE_NOOP}, false, &fsmGenericResponse{}
+}
+
+// verifNoopData is the log payload of an rqlite NOOP command (a LogCommand entry for raft).
+func verifNoopData() []byte {
+	b, err := command.Marshal(&proto.Command{Type: proto.Command_COMMAND_TYPE_NOOP})
+	if err != nil {
+		panic(err)
+	}
+	return b
+}
+
 // native replay: installs / removes raft.VerifHooks (set by hooks_test.go; nil in the symbolic run)
 var verifRaftHooksInstall func()
 var verifRaftHooksRemove func()
@@ -272,27 +289,20 @@ func verifNewStore() *Store {
 		logger:         log.New(io.Discard, "", 0),
 		ApplyTimeout:   applyTimeout,
 	}
+	s.cmdProc = NewCommandProcessor(s.logger, nil)
 	s.open.Set()
 	return s
 }
 
-// =============================================================================================
-// C16(b): dispatch of the read consistency levels.
-// =============================================================================================
-
-var verifC16Levels = []proto.ConsistencyLevel{
-	proto.ConsistencyLevel_NONE, proto.ConsistencyLevel_WEAK, proto.ConsistencyLevel_AUTO,
-	proto.ConsistencyLevel_LINEARIZABLE, proto.ConsistencyLevel_STRONG,
-}
-
-type verifC16Out struct {
-	served bool // the local-read sink was reached
+// verifReadOut is what a read through the real entry points came to.
+type verifReadOut struct {
+	served bool // the local-read sink (s.db.QueryWithContext on the nil database) was reached
 	level  proto.ConsistencyLevel
 	index  uint64
 	err    error
 }
 
-func verifC16Recover(out *verifC16Out) {
+func verifReadRecover(out *verifReadOut) {
 	if r := recover(); r != nil {
 		if st, ok := r.(verifStop); ok {
 			panic(st) // native verifAssume/verifAssert inside a model: not ours
@@ -301,17 +311,29 @@ func verifC16Recover(out *verifC16Out) {
 	}
 }
 
-func verifC16Query(s *Store, qr *proto.QueryRequest) (out verifC16Out) {
-	defer verifC16Recover(&out)
+func verifQuery(s *Store, qr *proto.QueryRequest) (out verifReadOut) {
+	defer verifReadRecover(&out)
 	_, out.level, out.index, out.err = s.Query(context.Background(), qr)
 	return
 }
 
-func verifC16Request(s *Store, eqr *proto.ExecuteQueryRequest) (out verifC16Out) {
-	defer verifC16Recover(&out)
+func verifRequest(s *Store, eqr *proto.ExecuteQueryRequest) (out verifReadOut) {
+	defer verifReadRecover(&out)
 	_, _, out.index, out.err = s.Request(context.Background(), eqr)
 	out.level = eqr.Level
 	return
+}
+
+var _ = errors.New
+var _ = time.Second
+
+// =============================================================================================
+// C16(b): dispatch of the read consistency levels.
+// =============================================================================================
+
+var verifC16Levels = []proto.ConsistencyLevel{
+	proto.ConsistencyLevel_NONE, proto.ConsistencyLevel_WEAK, proto.ConsistencyLevel_AUTO,
+	proto.ConsistencyLevel_LINEARIZABLE, proto.ConsistencyLevel_STRONG,
 }
 
 // verifC16Scenario is everything the solver chooses for one read.
@@ -458,7 +480,7 @@ func (sc *verifC16Scenario) applyOK() (ok bool, idx, term uint64) {
 
 // check is the oracle, written from the statement of C16. unified = the read came in through
 // (*Store).Request (the unified endpoint), where level auto is a recorded defect class.
-func (sc *verifC16Scenario) check(out verifC16Out, unified bool) {
+func (sc *verifC16Scenario) check(out verifReadOut, unified bool) {
 	w := sc.w
 	viaApply, applyIdx, applyTerm := sc.applyOK()
 	waited := verifClock() > sc.now
@@ -593,13 +615,13 @@ func verifC16Run(unified, volatile bool) {
 	}
 	sc := verifC16Setup(volatile, -1)
 	defer sc.done()
-	var out verifC16Out
+	var out verifReadOut
 	if unified {
 		sc.w.resp = &fsmExecuteQueryResponse{}
-		out = verifC16Request(sc.s, verifC16UnifiedReq(sc))
+		out = verifRequest(sc.s, verifC16UnifiedReq(sc))
 	} else {
 		sc.w.resp = &fsmQueryResponse{}
-		out = verifC16Query(sc.s, verifC16QueryReq(sc))
+		out = verifQuery(sc.s, verifC16QueryReq(sc))
 	}
 	sc.check(out, unified)
 }
@@ -624,6 +646,6 @@ func VerifC16bTwin() {
 	sc := verifC16Setup(true, 1) // weak
 	defer sc.done()
 	sc.w.resp = &fsmQueryResponse{}
-	out := verifC16Query(sc.s, verifC16QueryReq(sc))
+	out := verifQuery(sc.s, verifC16QueryReq(sc))
 	verifAssert("twin", !(out.served && sc.level == proto.ConsistencyLevel_WEAK))
 }
